@@ -26,4 +26,4 @@ meta = json.load(open(mp)) if os.path.exists(mp) else {}
 meta.setdefault("detection", {}).update({"%s/%s" % (c, os.environ.get("SEED_TIER", "quick")): v for c, v in res.items()})
 json.dump(meta, open(mp, "w"), indent=1)
 for c, v in res.items():
-    print(name, c, "DETECTED" if v["rc"] == 1 else ("MISSED" if v["rc"] == 0 else "HARNESS-ERROR rc=%d %s" % (v["rc"], v["stderr_tail"])), v["first"][:200])
+    print(name, c, "DETECTED" if (v["rc"] == 1 and v["violations"] > 0) else ("MISSED" if v["rc"] == 0 else "HARNESS-ERROR rc=%d %s" % (v["rc"], v["stderr_tail"])), v["first"][:200])
